@@ -25,7 +25,11 @@ def generate(rng, tier, n):
     cid = 0
     while len(cases) < n:
         c0 = rng.random()
-        if c0 < 0.06:
+        if len(cases) == 0:
+            # an infoset with more actions than any fixed-size scratch buffer (17 .. 40)
+            from ..solvers import needle_tree
+            t, st = needle_tree(rng, rng.choice([17, 20, 34, 40]), pl=rng.choice([1, 2]))
+        elif c0 < 0.06:
             # a decision behind a chance branch of probability 1e-17 .. 1e-30 whose payoffs are of the order 1/probability
             from .c01 import jackpot_tree
             t, st = jackpot_tree(rng)
